@@ -120,13 +120,14 @@ def fill_threshold(F, S):
     """A decoded code adds at most (symbols - 1) - match_base bytes; the fill threshold leaves that much room."""
     sp = lz_spec()
     fn = F.fn(HL + "::FillDecompressBuffer", nparams=0)
+    # the threshold is whatever constant the fill loop compares the masked fill level with
+    from .c05 import alias_defs, resolve
     mf = None
     for nd in fn.nodes:
-        if nd["k"] == "DeclStmt":
-            for d in nd.get("decls", []):
-                if d.get("n") == "maxFill" and "init" in d:
-                    t = fn.term(d["init"])
-                    mf = t[1] if t[0] == "const" else None
+        if nd["k"] == "WhileStmt":
+            t = resolve(fn.term(nd["cond"]), alias_defs(fn))
+            if t[0] == "op" and t[1] == "<" and t[3][0] == "const":
+                mf = t[3][1]
     dc = F.fn(HL + "::DecompressCode", nparams=0)
     base = None
     for nd in dc.nodes:
@@ -153,7 +154,7 @@ def fill_threshold(F, S):
     for nd in fn.nodes:
         if nd["k"] == "WhileStmt":
             t = fn.term(nd["cond"])
-            cond_ok = t[0] == "op" and t[1] == "<" and "maxFill" in repr(t[3]) and "m_BuffWriteIndex" in repr(t[2]) and "m_BuffReadIndex" in repr(t[2])
+            cond_ok = t[0] == "op" and t[1] == "<" and "m_BuffWriteIndex" in repr(t[2]) and "m_BuffReadIndex" in repr(t[2])
     if mf is not None and syms is not None and base is not None and cond_ok and mf + ((syms - 1) - base) <= sp["window"] - 1:
         out.append(ok("R-ACCT", inst, fn.loc(fn.body), fn.qn, req, "%d + %d <= %d" % (mf, (syms - 1) - base, sp["window"] - 1)))
     else:
